@@ -464,6 +464,11 @@ mod frame_kind_ids {
     pub const WEBTRANSPORT_STREAM: VarInt = VarInt::from_u32(0x41);
 }
 
+/// Verification harnesses with access to this module's private items (only under `cargo kani`).
+#[cfg(kani)]
+#[path = "/verif/kani/proto/in_frame.rs"]
+pub(crate) mod verif_kani;
+
 #[cfg(test)]
 mod tests {
     use super::*;
